@@ -14,7 +14,7 @@ MIN_GROWTH = 4
 
 
 def new_report(tier):
-    return make_report(PID, tier, "proof", [
+    return make_report(PID, tier, "other", [
         "encoding_rs contract: Malformed and OutputFull are returned with bytes_read <= src.len(); Malformed consumed at least the malformed "
         "sequence (bytes_read >= 1); OutputFull is only returned again without reading when fewer than 4 bytes of output space are left",
         "String::reserve(n) guarantees capacity >= len + n",
